@@ -19,6 +19,8 @@ func init() {
 		Assumptions: []string{"fmutils.Filter(msg, paths) keeps exactly the listed paths of msg; proto.Clone is a deep copy"},
 		Run:         runC06,
 		Controls: []Control{
+			{Name: "pullid-drops-its-options", File: "pkg/resource/collection.go", Old: "\tchanges := c.Pull(ctx, opts...)\n", New: "\tchanges := c.Pull(ctx)\n", Expect: "R06.9"},
+			{Name: "sanitiser-cuts-at-every-list", File: "pkg/masks/get.go", Old: "\t\tif fd.IsMap() || fd.Message() == nil {\n", New: "\t\tif fd.IsList() || fd.IsMap() || fd.Message() == nil {\n", Expect: "paths through repeated messages"},
 			{Name: "empty-mask-treated-as-nil", File: "pkg/masks/get.go", Old: "func WithFieldMask(fm *fieldmaskpb.FieldMask) ResponseFilterOption {\n\tif fm == nil {\n", New: "func WithFieldMask(fm *fieldmaskpb.FieldMask) ResponseFilterOption {\n\tif len(fm.GetPaths()) == 0 {\n", Expect: "R06.8"},
 			{Name: "filterclone-filters-original", File: "pkg/masks/get.go", Old: "\tfmutils.Filter(clone, paths)\n\treturn clone", New: "\tfmutils.Filter(msg, paths)\n\treturn msg", Expect: "R06.1"},
 			{Name: "empty-mask-returns-everything", File: "pkg/masks/get.go", Old: "\tif len(paths) == 0 {\n\t\tproto.Reset(clone)\n\t\treturn clone\n\t}\n\tfmutils.Filter(clone, paths)", New: "\tif len(paths) == 0 {\n\t\treturn msg\n\t}\n\tfmutils.Filter(clone, paths)", Expect: "R06.1"},
@@ -39,6 +41,8 @@ func init() {
 const filterCloneQ = "(*" + an.ModulePath + "/pkg/masks.ResponseFilter).FilterClone"
 
 func runC06(c *an.Ctx) {
+	r0113(c, "R06.9") // read options (the read mask among them) are passed on by every entry point (shared with R01.13)
+	c.Min("R06.9", 40)
 	r061(c)
 	r062(c)
 	r063(c)
@@ -730,6 +734,13 @@ func r066(c *an.Ctx) {
 				if !(methods["ByName"] && methods["IsMap"] && (methods["Message"] || methods["Kind"])) {
 					consults = false
 				}
+				// ... and it goes on below a repeated MESSAGE field: fmutils projects each element, and the property counts
+				// paths through repeated messages as valid. Cutting the path at every list selects whole elements
+				if cut := cutsAtLists(seen); cut != nil {
+					c.Bad("R06.6", fmt.Sprintf("%s|paths through repeated messages are kept", name), cut.Pos(), "the function that prepares the paths cuts a path at a repeated field without asking whether its elements are messages: `segments.magnitude` becomes `segments`, and the read returns whole list elements instead of their projection")
+				} else {
+					c.Ok("R06.6", fmt.Sprintf("%s|paths through repeated messages are kept", name), call.Pos(), "")
+				}
 			}
 			// validated first?
 			validated := false
@@ -939,4 +950,58 @@ func r068(c *an.Ctx, rule string) {
 		c.Check(ok, rule, "pkg/masks."+name+"|declines exactly for a nil mask", fn.Pos(), "nil -> do-nothing option, anything else is configured",
 			"the option does not configure the mask in exactly the non-nil case ("+why+"): a non-nil mask without paths means `no fields` (reads return an empty message, updates change nothing); treated like nil it means `everything`, and reads hand out the stored message itself")
 	}
+}
+
+// cutsAtLists: an `fd.IsList()` test whose "is a list" edge reaches a return of a shortened path (a slice expression)
+// without a test of `fd.Message() == nil` (or Kind) in between.
+func cutsAtLists(fns map[*ssa.Function]bool) ssa.Instruction {
+	var found ssa.Instruction
+	for f := range fns {
+		an.Instrs(f, func(in ssa.Instruction) {
+			iff, ok := in.(*ssa.If)
+			if !ok {
+				return
+			}
+			cond, neg := iff.Cond, false
+			if u, isU := cond.(*ssa.UnOp); isU && u.Op == token.NOT {
+				cond, neg = u.X, true
+			}
+			call, isCall := cond.(*ssa.Call)
+			if !isCall || !call.Call.IsInvoke() || call.Call.Method.Name() != "IsList" {
+				return
+			}
+			listEdge := iff.Block().Succs[0]
+			if neg {
+				listEdge = iff.Block().Succs[1]
+			}
+			isCut := func(x ssa.Instruction) bool {
+				r, isR := x.(*ssa.Return)
+				if !isR || len(r.Results) == 0 {
+					return false
+				}
+				for _, v := range an.ValuesAt(r.Results[0]) {
+					if _, isSl := v.(*ssa.Slice); isSl {
+						return true
+					}
+				}
+				return false
+			}
+			asksMessage := func(x ssa.Instruction) bool {
+				i2, isIf := x.(*ssa.If)
+				if !isIf {
+					return false
+				}
+				for _, v := range an.Sources(i2.Cond) {
+					if cl, isC := v.(*ssa.Call); isC && cl.Call.IsInvoke() && (cl.Call.Method.Name() == "Message" || cl.Call.Method.Name() == "Kind") {
+						return true
+					}
+				}
+				return false
+			}
+			if t, _ := (an.PathQuery{Target: isCut, Avoid: asksMessage}).FromBlock(listEdge); t != nil {
+				found = iff
+			}
+		})
+	}
+	return found
 }
